@@ -189,6 +189,19 @@ func runC15(o *opts) (*summary, error) {
 		}
 	}
 
+	// cold pass (one fresh process per role): the FIRST address this process ever parses goes through that role's parser,
+	// then a handful of texts through every role and entry point - whatever the parsers set up on first use (shared patterns,
+	// tables) must not depend on which of them ran first
+	if cold := o.extraArg("cold"); cold != "" {
+		emit(cold, "192.168.1.100:60001", "cold-first")
+		for _, role := range addrRoles {
+			for _, s := range []string{"192.168.1.100", "192.168.1.100:60000", "192.168.1.100:12345", "0.0.0.0", "0.0.0.0:0", "255.255.255.255", "10.0.0.1:1", "192.168.1.100:0", "192.168.1", "192.168.1.100:65536", "", "[::1]:60000"} {
+				emit(role, s, "ports")
+			}
+		}
+		return w.close(), nil
+	}
+
 	// (1) all strings over {1,0,2,5,.,:} up to length 7 (9 thorough): those with fewer than three dots are
 	// summarised per (role, length) - none may be accepted; the others are judged one by one
 	alphabet := []byte("1025.:")
